@@ -807,3 +807,20 @@ def seq_track_final_bpm(bars, bpm):
 def uniq_in_order(xs):
     """the distinct values of xs in order of first occurrence"""
     return [] if len(xs) == 0 else [xs[0]] + uniq_in_order([x for x in xs[1:] if x != xs[0]])
+
+
+@primitive
+def all_distinct_objects(xs):
+    """no object occurs twice in the list"""
+    return len(set(id(x) for x in xs)) == len(list(xs))
+
+
+@primitive
+def list_same_objects(a, b):
+    """the two lists hold the same objects in the same order"""
+    return len(a) == len(b) and all(x is y for x, y in zip(a, b))
+
+
+def container_entries(entries):
+    """the contents of the entries that hold notes (rests skipped), in bar order"""
+    return [e[2] for e in entries if e[2] is not None]
